@@ -8,8 +8,9 @@ prop = sys.argv[1]
 checks = sys.argv[2:] or [prop]
 src = f"/tmp/wt/{prop}/out"
 notes = open(os.path.join(src, "notes.md")).read() if os.path.exists(os.path.join(src, "notes.md")) else ""
-for m in "AB":
-    patch, demo = f"{src}/mut{m}.diff", f"{src}/demo{m}.py"
+LABELS = os.environ.get("SEED_LABELS", "AB")  # where mutA/mutB are stored (e.g. CD for a second round)
+for m0, m in zip("AB", LABELS):
+    patch, demo = f"{src}/mut{m0}.diff", f"{src}/demo{m0}.py"
     if not os.path.exists(patch):
         continue
     c = seedtest.confirm(prop, patch, demo)
